@@ -1688,6 +1688,15 @@ func vC08Probe(t *testing.T, out *vWriter) {
 	t.Run("directed_bounce", func(t *testing.T) {
 		out.emit(vC08DirectedBounce(t))
 	})
+	for i, dir := range []string{"CA", "AC"} {
+		i, dir := i, dir
+		t.Run("directed_pair_"+dir, func(t *testing.T) {
+			vC08PayTimeout, vC08QuietTimeout = 20*time.Second, 8*time.Second
+			c := vC08DirectedPair(t, dir, 1010+i)
+			vC08PayTimeout, vC08QuietTimeout = 6*time.Second, 4*time.Second
+			out.emit(c)
+		})
+	}
 	for attempt := 0; attempt < 4; attempt++ {
 		var (
 			c  *vC08Case
